@@ -377,6 +377,7 @@ package keyvalue
 //@   modifies fRec(f).data, fRec(f).dataErr, fRec(f).dataDone, oncedone(fRec(f).dataOnce)
 //@   ensures "closed" implies(f.closed, b == nil && n == 0 && closedError(err, f) && world() == old(world()))
 //@   ensures "neg" implies(!f.closed && off < 0, b == nil && n == 0 && err != nil && err != io.EOF)
+//@   ensures "directory-read-fails" [C02 C01] implies(!f.closed && off >= 0 && old(fIsDir(f)), n == 0 && err != nil && err != io.EOF)   // C02: "reading a directory handle as bytes fails" (known finding: it reports end of file)
 //@   ensures "data-error" implies(!f.closed && off >= 0 && old(hDataErr(f)) != nil, b == nil && n == 0 && err == old(hDataErr(f)))
 //@   ensures "past-end" implies(!f.closed && off >= 0 && old(hDataErr(f)) == nil && off >= blob.blobLen(old(hData(f))), b == nil && n == 0 && err == io.EOF)
 //@   ensures "count" implies(!f.closed && off >= 0 && old(hDataErr(f)) == nil && off < blob.blobLen(old(hData(f))) && length >= 0,
